@@ -67,7 +67,12 @@ impl Out {
         }
     }
     fn violation(&mut self, sig: &str, what: String, detail: String) {
-        self.violations.push((sig.to_string(), what, detail));
+        // a scenario that serves several properties reports under the one it was run for
+        let sig = match sig.find("/miri/") {
+            Some(i) if !self.prop.is_empty() => format!("{}{}", self.prop, &sig[i..]),
+            _ => sig.to_string(),
+        };
+        self.violations.push((sig, what, detail));
     }
     fn print(&self, seed: u64) {
         let sigs: Vec<String> = self.sigs.iter().map(|s| format!("\"{}\"", s)).collect();
